@@ -333,25 +333,65 @@ def _run_program(modname, progname, repo, timeout_ms, arg):
             'solver_seconds': eng.solver_seconds}
 
 
-def run_programs(modname, programs, repo=None, timeout_ms=10000, workers=None):
-    """programs: list of (progname, arg).  Returns list of result dicts (same order)."""
+def _child(conn, modname, pn, repo, timeout_ms, arg):
+    try:
+        r = _run_program(modname, pn, repo, timeout_ms, arg)
+    except BaseException as e:
+        r = {'program': pn, 'arg': arg, 'obligations': [], 'error': 'worker crashed: %r' % e, 'paths': 0, 'wall': 0, 'assumptions': [], 'solver_seconds': 0}
+    try:
+        conn.send(r)
+    finally:
+        conn.close()
+
+
+def run_programs(modname, programs, repo=None, timeout_ms=10000, workers=None, wall_s=None):
+    """programs: list of (progname, arg).  Returns list of result dicts (same order).  One process per program,
+    at most `workers` at a time; a program that exceeds its wall-clock budget is killed and reported as undecided
+    (never as a violation): solver time limits are not always honoured on nonlinear queries."""
     repo = repo or REPO
     workers = workers or WORKERS
+    wall_s = wall_s or max(600, int(timeout_ms / 1000.0 * 25))
     results = [None] * len(programs)
     import multiprocessing
     ctx = multiprocessing.get_context('fork')
-    with concurrent.futures.ProcessPoolExecutor(max_workers=min(workers, max(1, len(programs))), mp_context=ctx) as ex:
-        futs = {}
-        for i, (pn, arg) in enumerate(programs):
-            futs[ex.submit(_run_program, modname, pn, repo, timeout_ms, arg)] = i
-        for fu in concurrent.futures.as_completed(futs):
-            i = futs[fu]
+    pending = list(enumerate(programs))
+    running = []
+    while pending or running:
+        while pending and len(running) < workers:
+            i, (pn, arg) = pending.pop(0)
+            rd, wr = ctx.Pipe(duplex=False)
+            pr = ctx.Process(target=_child, args=(wr, modname, pn, repo, timeout_ms, arg))
+            pr.start()
+            wr.close()
+            running.append((i, pr, rd, time.time()))
+        still = []
+        for (i, pr, rd, t0) in running:
+            done = False
             try:
-                results[i] = fu.result()
-            except Exception as e:
-                results[i] = {'program': programs[i][0], 'arg': programs[i][1], 'obligations': [],
-                              'error': 'worker crashed: %r' % e, 'paths': 0, 'wall': 0, 'assumptions': [],
-                              'solver_seconds': 0}
+                if rd.poll(0):
+                    results[i] = rd.recv()
+                    done = True
+            except (EOFError, OSError):
+                results[i] = {'program': programs[i][0], 'arg': programs[i][1], 'obligations': [], 'error': 'worker died without a result (exit code %s)' % pr.exitcode,
+                              'paths': 0, 'wall': time.time() - t0, 'assumptions': [], 'solver_seconds': 0}
+                done = True
+            if not done and not pr.is_alive() and not rd.poll(0):
+                results[i] = {'program': programs[i][0], 'arg': programs[i][1], 'obligations': [], 'error': 'worker died without a result (exit code %s)' % pr.exitcode,
+                              'paths': 0, 'wall': time.time() - t0, 'assumptions': [], 'solver_seconds': 0}
+                done = True
+            if not done and time.time() - t0 > wall_s:
+                pr.kill()
+                results[i] = {'program': programs[i][0], 'arg': programs[i][1], 'obligations': [], 'error': 'budget: wall clock %d s exceeded, program killed' % wall_s,
+                              'paths': 0, 'wall': time.time() - t0, 'assumptions': [], 'solver_seconds': 0}
+                done = True
+            if done:
+                pr.join(5)
+                rd.close()
+            else:
+                still.append((i, pr, rd, t0))
+        running = still
+        if running:
+            time.sleep(0.02)
     return results
 
 
